@@ -142,6 +142,20 @@ class TickStep(Step):
         return {'vars': {self.parameters['var']: 1}}
 
 
+class LegacyTick(Process):
+    """a legacy deriver: a `Process` subclass that is a step because it says so (`is_step()`), not by its class"""
+    defaults = {'var': 'ls'}
+
+    def is_step(self):
+        return True
+
+    def ports_schema(self):
+        return {'vars': {self.parameters['var']: {'_default': 0, '_emit': True}}}
+
+    def next_update(self, timestep, states):
+        return {'vars': {self.parameters['var']: 1}}
+
+
 class UnitTick(Process):
     """adds 1 fg to ('vars','mass') every time unit: quantities cross the pipe when the process is parallel"""
     defaults = {'var': 'mass'}
